@@ -178,6 +178,7 @@ func install() {
 		}
 		t := e.newTask(fmt.Sprintf("lib@%d", site), true)
 		t.site = site
+		t.phase = e.running.phase
 		return t
 	}
 	verifrt.StartHook = func(h any) {
